@@ -3,6 +3,7 @@
 From Coq Require Import List NArith.
 From FP Require Import Model.Base Model.Rdh Model.Scanner Model.CdpRunning Model.Link Spec.Framing
   Proofs.C03_proofs Proofs.C18_proofs.
+From FP Require Import Model.Alpide Proofs.C04_stave Proofs.C18_total.
 From FP Require Gen.Facts.
 Import ListNotations.
 Open Scope N_scope.
@@ -45,6 +46,14 @@ Theorem C18_validator_prefix : forall c ps1 ps2 msgs,
   end.
 Proof. exact c18_validator_prefix. Qed.
 
+(* the same without the `unless it crashes` escape: the longer run extends the findings, or it stops at the invalid-layer site
+   (recorded finding F6) and some packet of the longer input names layer 7 *)
+Theorem C18_validator_prefix_total : forall c ps1 ps2 msgs, run_validator c ps1 = Ok msgs ->
+  (exists more, run_validator c (ps1 ++ ps2) = Ok (msgs ++ more)) \/
+  (run_validator c (ps1 ++ ps2) = Panic SITE_stave_from_feeid /\
+   exists q, In q (ps1 ++ ps2) /\ 6 < layer_from_feeid (r_fee_id (c_rdh q))).
+Proof. exact (c18_validator_prefix_total (conj eq_refl (conj eq_refl eq_refl))). Qed.
+
 (* a reader that returns the error instead of the batch being filled (defect F16 of the pinned
    commit: pipe input, filter, cut inside the payload of a skipped packet) loses complete packets *)
 Theorem C18_refuted_when_batch_dropped :
@@ -57,4 +66,5 @@ Proof. exact c18_refuted_when_batch_dropped. Qed.
 Print Assumptions C18_scan_truncated.
 Print Assumptions C18_cut_decomposition.
 Print Assumptions C18_validator_prefix.
+Print Assumptions C18_validator_prefix_total.
 Print Assumptions C18_refuted_when_batch_dropped.
